@@ -88,7 +88,7 @@ def install_name_contracts(R):
 _tls = threading.local()
 
 
-def quiescent(cls, methods, invariant, name, collect=None):
+def quiescent(cls, methods, invariant, name, result_only=()):
     """Wrap `methods` of `cls`.  `invariant(obj, method_name)` is called for every
     monitored instance touched during the outermost call, when that call returns
     normally and the instance is still reachable (self, args, result)."""
@@ -113,8 +113,11 @@ def quiescent(cls, methods, invariant, name, collect=None):
                     _tls.depth = depth
                 if depth == 0:
                     touched, _tls.touched = _tls.touched, {}
-                    reach = [self] + [x for x in a if isinstance(x, cls)] + \
-                        [x for x in kw.values() if isinstance(x, cls)]
+                    # operations that build a new object out of their operands (which
+                    # share parts with the result and are spent afterwards) are judged
+                    # on the result only
+                    reach = [] if mname in result_only else (
+                        [self] + [x for x in a if isinstance(x, cls)] + [x for x in kw.values() if isinstance(x, cls)])
                     if isinstance(result, cls):
                         reach.append(result)
                     elif isinstance(result, tuple):
